@@ -39,13 +39,11 @@ func (r *Reader) Read(p []byte) (n int, err error) {
 		p = p[:b]
 	}
 	n, err = r.r.Read(p)
-	if err != nil {
-		return
-	}
-
-	err = r.limiter.WaitN(context.Background(), n)
-	if err != nil {
-		return
+	if n > 0 {
+		// bytes returned together with an error (e.g. the final read of a stream) are charged too
+		if waitErr := r.limiter.WaitN(context.Background(), n); waitErr != nil && err == nil {
+			err = waitErr
+		}
 	}
 	return
 }
